@@ -94,13 +94,35 @@ func checkC12(c *Ctx, r *Report) {
 	s4 := r.Rule("S4", "E-ORDER", "memory.File Write/WriteAt copy into the result of resizeSliceIfNecessary(buf, offset+len(p)) and store it back on the resized side; resizeSliceIfNecessary copies the old contents into a newly made buffer", 3)
 
 	for _, bt := range types_ {
+		isLenOfContents := func(w ssa.Value) bool {
+			cl, ok := w.(*ssa.Call)
+			if !ok || calleeName(cl.Common()) != "builtin.len" {
+				return false
+			}
+			return mentionsCall(cl.Call.Args[0], bt.sizeVia...)
+		}
 		isSize := func(v ssa.Value) bool {
 			return mentions(v, func(w ssa.Value) bool {
+				if isLenOfContents(w) {
+					return true
+				}
+				// or a size getter of the type: a method all of whose returns are that length
 				cl, ok := w.(*ssa.Call)
-				if !ok || calleeName(cl.Common()) != "builtin.len" {
+				if !ok {
 					return false
 				}
-				return mentionsCall(cl.Call.Args[0], bt.sizeVia...)
+				g := cl.Common().StaticCallee()
+				if g == nil || len(g.Blocks) == 0 || recvTypeName(g) != bt.t {
+					return false
+				}
+				n := 0
+				for _, ret := range returnsOf(g) {
+					if len(ret.Results) != 1 || !mentions(ret.Results[0], isLenOfContents, 4) {
+						return false
+					}
+					n++
+				}
+				return n > 0
 			}, 4)
 		}
 		// ---------- S1
@@ -287,6 +309,34 @@ func checkC12(c *Ctx, r *Report) {
 		if fn == nil {
 			continue
 		}
+		// the grow-copy-publish sequence may live in a helper of the type that the
+		// method calls with the payload and the offset: it is then checked there,
+		// with the helper's int64 parameter playing the offset
+		var helperOff ssa.Value
+		if len(callsInNamed(fn, "lib/store/memory.resizeSliceIfNecessary")) == 0 {
+			for _, cs := range callsIn(fn) {
+				sf := cs.Instr.Common().StaticCallee()
+				if sf == nil || sf.Pkg != fn.Pkg || len(callsInNamed(sf, "lib/store/memory.resizeSliceIfNecessary")) != 1 {
+					continue
+				}
+				// the argument in the offset position must be this method's offset
+				for i, prm := range sf.Params {
+					if prm.Type().String() != "int64" || i >= len(cs.Instr.Common().Args) {
+						continue
+					}
+					a := cs.Instr.Common().Args[i]
+					isOff := false
+					if m == "WriteAt" {
+						isOff = a == ssa.Value(fn.Params[2])
+					} else {
+						isOff = isPureLoadOf(a, tF+".off")
+					}
+					if isOff {
+						fn, helperOff = sf, prm
+					}
+				}
+			}
+		}
 		rs := callsInNamed(fn, "lib/store/memory.resizeSliceIfNecessary")
 		ok := len(rs) == 1
 		why := "no single resize call"
@@ -296,7 +346,9 @@ func checkC12(c *Ctx, r *Report) {
 			end := rs[0].Instr.Common().Args[1]
 			eb, isB := end.(*ssa.BinOp)
 			var offV ssa.Value
-			if m == "WriteAt" {
+			if helperOff != nil {
+				offV = helperOff
+			} else if m == "WriteAt" {
 				offV = fn.Params[2]
 			}
 			okEnd := isB && eb.Op == token.ADD
